@@ -44,6 +44,8 @@ for name in ('sched', 'vsync', 'vatomic', 'vmaprange'):
     src = os.path.join(here, 'files', name + '.go.txt')
     if os.path.exists(src):
         replace[os.path.join(repo, 'verifshim', name, name + '.go')] = src
+replace[os.path.join(repo, 'integer', 'verif_getg.go')] = os.path.join(here, 'files', 'getg.go.txt')
+replace[os.path.join(repo, 'integer', 'verif_getg_amd64.s')] = os.path.join(here, 'files', 'getg_amd64.s.txt')
 if extra:
     e = json.load(open(extra))
     for k, v in e['Replace'].items():
